@@ -29,27 +29,40 @@ sec8 = """----------------------------------------------------------------------
 
 ## 8. Seeded changes, and which checks catch them
 
-72 changes were produced by fresh sub-agents that were given only the text of one
-property and a scratch worktree of /repo (nothing from /verif), in two rounds (the
-second round was told the summaries of the first and asked for harder, different
-mechanisms). Each was confirmed by `tools/confirm_mutant.py` in a scratch worktree:
+@N@ changes were produced by fresh sub-agents that were given only the text of one
+property and a scratch worktree of /repo (nothing from /verif), in three rounds of
+two changes per property (round 2 was told the summaries of round 1 and asked for
+harder, different mechanisms; round 3 was told all four earlier summaries and asked
+to look away from the obvious function: shared helpers, type definitions, derive
+attributes, constants, iterator chains, match-arm order, build.rs, Cargo.toml, the
+data file). Each was confirmed by `tools/confirm_mutant.py` in a scratch worktree:
 the three configurations compile and the existing tests pass (default and
 serialize) with the change; its demonstration test fails with the change and passes
 without it. None is applied to /repo. To run the checks against one:
 `git -C /repo apply seeded/<id>/patch.diff; ./check <Cnn>; git -C /repo checkout -- .`
 (or `tools/try_mutant.py <id>` in a scratch worktree).
 
-Result: **every one of the 72 is reported by the check of the property it breaks.**
-Seven were missed at first and led to stronger rules: C07-c (guard moved before the
-reads in the shared heartbeat parser; C07 now also requires the one-shot parser's
-reference grammar), C11-c (an unregistered extension type captured by a dispatch
-arm; C11 now requires dispatched types to be IANA-known), C11-d (two swapped u16
-fields, both unconstrained; C11 now requires the *same wire element* as the
-reference grammar), C15-c (build.rs dropping the first registry row; C15 now checks
-the registry against the txt), C17-c (zero padding moved into LowerHex; C17 now
-requires a plain format template), C17-d (Debug no longer printing names; C17 now
-lists the types whose Debug prints names), and the first C08 run had a floor taken
-from the design instead of a counted number.
+Result: **every one of the @N@ is reported by the check of the property it breaks.**
+Eleven were missed (or would have been, and were predicted before running) by the
+check of their own property at first and led to stronger rules - in no case was a
+rule loosened:
+* C07-c (a guard moved before the reads in the shared heartbeat parser): C07 now also
+  requires the one-shot parser's reference grammar (ONE-SHOT-GRAMMAR).
+* C11-c (an unregistered extension type captured by a dispatch arm): dispatched types
+  must be IANA-known. C11-d (two swapped u16 fields, both unconstrained): the field
+  must be fed by the *same wire element* as in the reference grammar. C11-f (a guarded
+  match arm the evaluator could not read made the check exit 2): guarded catch-all
+  arms are now evaluated and unreadable constructs are reported as violations.
+* C15-c (build.rs dropping the first registry row) and C15-f (an id renumbered in the
+  data file, consistently in registry and txt): C15 now checks the registry against
+  the txt and the IANA snapshot.
+* C17-c (zero padding moved into LowerHex): plain format template required. C17-d
+  (Debug no longer printing names): list of types whose Debug prints names. C17-e (a
+  new constant with a transposed value shadowing SupportedVersions in the name
+  table): UNIQUE-VALUES.
+* C09-e / C09-f (parser-side changes that only break the round trip): READER-GRAMMAR.
+* C03-b was missed for a moment after the projections were introduced (the Failure was
+  inside a cut region): NO-FAILURE over the whole payload grammar.
 
 The column "caught by" lists every property check that reports the change (from
 `seeded/MATRIX.json`, all 18 checks run against every change); "rules" are the rules
@@ -58,6 +71,7 @@ of the change's own property that fire.
 | change | what was changed | needs to manifest | rules (own property) | caught by |
 |---|---|---|---|---|
 """ + "\n".join(rows) + "\n\n"
+sec8 = sec8.replace("@N@", str(len(rows)))
 sec9 = """--------------------------------------------------------------------------
 
 ## 9. Interface (MANIFEST.json)
